@@ -45,6 +45,11 @@ def run(name, pids):
     rc, st = sh("git status --porcelain -- pbhhg_py pbhhg_js", cwd=REPO); assert not st.strip(), "/repo is not clean: " + st
     rc, o = sh(f"git apply {dst}/patch.diff", cwd=REPO); assert rc == 0, o
     res = {}
+    # the evidence files under /verif/evidence must always come from runs on the UNCHANGED tree: keep them aside while the change is applied
+    keep = {}
+    for pid in pids:
+        ev = os.path.join(ROOT, "evidence", f"{pid}.json")
+        if os.path.exists(ev): keep[ev] = open(ev, "rb").read()
     try:
         for pid in pids:
             t = time.time(); rc, out = sh(f"./check {pid} --tier quick", cwd=ROOT, timeout=3000)
@@ -60,6 +65,7 @@ def run(name, pids):
                 except Exception as e: print("    (replay unreadable)", e)
     finally:
         sh("git checkout -- pbhhg_py pbhhg_js", cwd=REPO)
+        for ev, data in keep.items(): open(ev, "wb").write(data)
     meta.setdefault("checks", {}).update(res); json.dump(meta, open(os.path.join(dst, "meta.json"), "w"), indent=1, ensure_ascii=False)
     return res
 
